@@ -16,9 +16,9 @@ RULE = (
 )
 BOUNDS = {
     "quick": "3 group addresses (g1, g2, g1#two) x {new,reuse} x {collect_paths, collect_by_line} x 3 clock steps = 36 operations, all histories to depth 3; plus all same-second chains of 4 and 5 runs over 4 operations; plus all 36 ordered pairs (x 2 groups x 2 clock steps) and 216 ordered triples of the six run methods on one reused instance",
-    "thorough": "same 36 operations to depth 4, plus all six run methods (72 operations) to depth 2",
+    "thorough": "same 36 operations to depth 5 (the length the property's quantifier names), plus all six run methods (72 operations) to depth 2",
 }
-DEPTH = {"quick": 3, "thorough": 4}
+DEPTH = {"quick": 3, "thorough": 5}
 BUDGET = {"quick": 500, "thorough": 3400}
 CHUNK = 30
 ASSUMPTIONS = [
